@@ -24,6 +24,10 @@ def main():
     repo = os.path.realpath(os.environ.get('VERIF_REPO', '/repo'))
     assert os.path.realpath(asyncssh.__file__).startswith(repo), asyncssh.__file__
     import determ
+    # torn-down virtual loops leave half-run async generators behind; their GC noise is not a result
+    sys.unraisablehook = lambda *a: None
+    import warnings
+    warnings.filterwarnings('ignore', category=RuntimeWarning, message='coroutine .* was never awaited')
     seed = determ.seed_from_env()
     mod = importlib.import_module(args.prop.lower())
     if args.replay:
